@@ -58,7 +58,7 @@ def iter_spec(rng: random.Random, name: str, maxlen: int = 8) -> dict:
     if name in RAW_ANY_TOOLS and not spec.get("raw") and rng.random() < 0.12:
         # plain values incl. None / falsy ones: nothing but identity may serve as a "no item" marker
         spec["raw"] = True
-        pool = [None, None, 0, False, "", 1, ["T"], ["Op", 1], ["Op", 2], ["Aw", 1], ["Aw", 2]]
+        pool = [None, None, 0, False, "", 1, ["T"], ["Op", 1], ["Op", 2], ["Aw", 1], ["Aw", 2], ["La", 1]]
         srcs = spec["srcs"]
         keep = 1 if name == "compress" else len(srcs)  # the selectors of compress stay numbers
         spec["srcs"] = [[rng.choice(pool) for _ in src] if i < keep else src for i, src in enumerate(srcs)]
@@ -79,10 +79,10 @@ def _iter_spec(rng: random.Random, name: str, maxlen: int = 8) -> dict:
         if name != "map" and rng.random() < 0.2:
             # plain values incl. None / falsy ones: nothing but identity may serve as "no item" marker
             spec["raw"] = True
-            pool = [None, None, 0, False, "", 1, ["T"], ["Op", 1], ["Op", 2], ["Aw", 1], ["Aw", 2]]
+            pool = [None, None, 0, False, "", 1, ["T"], ["Op", 1], ["Op", 2], ["Aw", 1], ["Aw", 2], ["La", 1]]
             spec["srcs"] = [[rng.choice(pool) for _ in src] for src in srcs]
         if name == "map":
-            spec["fns"] = [rng.choice(["mk", "mk", "mk", "tup", "none_or_item", "falsy_result"])]
+            spec["fns"] = [rng.choice(["mk", "mk", "mk", "tup", "none_or_item", "falsy_result", "lookalike_result"])]
         if name == "zip_longest" and rng.random() < 0.5:
             spec["params"]["fillvalue"] = rng.choice([["item", 7, "fill"], ["none"], ["raw", 0]])
         return spec
